@@ -714,6 +714,14 @@ func (c *c19) ruleEndian() {
 						has = true
 					}
 				}
+				// value form: the byte order is a result of the function (helper returning it)
+				if ret, ok := ins.(*ssa.Return); ok {
+					for _, r := range ret.Results {
+						if types.TypeString(r.Type(), nil) == tEnd {
+							has = true
+						}
+					}
+				}
 			})
 			if has {
 				sites = append(sites, s)
@@ -804,6 +812,15 @@ func (c *c19) ruleEndian() {
 				startB = xi.Block() // paths on which the magic has been read
 			}
 			in := map[*ssa.BasicBlock]map[int64]bool{startB: {unset: true}}
+			feas := map[[2]*ssa.BasicBlock]bool{}
+			hasStore := false
+			fw.EachInstr(s.fn, func(ins ssa.Instruction) {
+				if st, ok := ins.(*ssa.Store); ok {
+					if kc, ok := st.Val.(*ssa.Const); ok && types.TypeString(kc.Type(), nil) == tEnd {
+						hasStore = true
+					}
+				}
+			})
 			got := map[int64]bool{}
 			work := []*ssa.BasicBlock{startB}
 			for len(work) > 0 {
@@ -847,6 +864,7 @@ func (c *c19) ruleEndian() {
 					}
 				}
 				for _, sc := range succs {
+					feas[[2]*ssa.BasicBlock{b, sc}] = true
 					if in[sc] == nil {
 						in[sc] = map[int64]bool{}
 					}
@@ -858,6 +876,46 @@ func (c *c19) ruleEndian() {
 					}
 					if grew {
 						work = append(work, sc)
+					}
+				}
+			}
+			if !hasStore {
+				// value form: what the reached returns yield, phis resolved along the feasible edges
+				delete(got, unset)
+				const unknown = int64(-2)
+				var ev func(v ssa.Value, d int) map[int64]bool
+				ev = func(v ssa.Value, d int) map[int64]bool {
+					out := map[int64]bool{}
+					switch x := v.(type) {
+					case *ssa.Const:
+						if x.Value != nil {
+							out[x.Int64()] = true
+							return out
+						}
+					case *ssa.Phi:
+						if d < 8 {
+							for i, e := range x.Edges {
+								if feas[[2]*ssa.BasicBlock{x.Block().Preds[i], x.Block()}] {
+									for val := range ev(e, d+1) {
+										out[val] = true
+									}
+								}
+							}
+							return out
+						}
+					}
+					out[unknown] = true
+					return out
+				}
+				for b := range in {
+					if ret, ok := b.Instrs[len(b.Instrs)-1].(*ssa.Return); ok && (fw.CurrentNR == nil || fw.CurrentNR.CutIndex(b) < 0) {
+						for _, r := range ret.Results {
+							if types.TypeString(r.Type(), nil) == tEnd {
+								for val := range ev(r, 0) {
+									got[val] = true
+								}
+							}
+						}
 					}
 				}
 			}
